@@ -354,3 +354,135 @@ func ScalarSpecials() []V {
 
 	return out
 }
+
+// ---------------------------------------------------------------------------------------------------------------------
+// Representations that steer an INTERMEDIATE of the group formulas onto a structured stored value.
+//
+// The formulas first form products and sums of the input coordinates (Y^2, YZ, Z^2, XY for doubling; X1X2, Y1Y2, Z1Z2,
+// X+Y, Y+Z, X+Z for addition). A hand-optimised step (a shift-based small multiple, a lazy reduction) fails on a thin
+// set of STORED values of such an intermediate. Because every point has the representations (λx : λy : λ), λ can be
+// solved for so that a chosen intermediate lands on a chosen stored value.
+
+// StoredTargets returns structured stored values (integers < m): the specials, values just around multiples of
+// 2^252..2^255 (what a shift by 1..4 bits pushes over 2^256) and around j*m/8, j*m/4, j*m/2 (what repeated doubling
+// pushes over m).
+func StoredTargets(m *big.Int) []*big.Int {
+	out := storedSpecials(m)
+
+	add := func(x *big.Int) {
+		if x.Sign() > 0 && x.Cmp(m) < 0 {
+			out = append(out, x)
+		}
+	}
+
+	for k := 252; k <= 255; k++ {
+		step := pow2(k)
+		for j := int64(1); ; j++ {
+			base := new(big.Int).Mul(step, bi(j))
+			if base.Cmp(addI(m, 3)) > 0 {
+				break
+			}
+
+			for d := int64(-3); d <= 2; d++ {
+				add(addI(base, d))
+			}
+		}
+	}
+
+	for _, den := range []int64{2, 4, 8} {
+		for j := int64(1); j < den; j++ {
+			base := new(big.Int).Div(new(big.Int).Mul(m, bi(j)), bi(den))
+			for d := int64(-2); d <= 2; d++ {
+				add(addI(base, d))
+			}
+		}
+	}
+
+	return out
+}
+
+// ReprHitting returns a representation of p in which the named intermediate has stored value t (if solvable).
+func ReprHitting(p oracle.Pt, which string, t *big.Int) (Repr, bool) {
+	if p.IsInf() {
+		return Repr{}, false
+	}
+
+	v := oracle.FromMont(oracle.Limbs(t), oracle.P) // canonical value whose stored form is t
+	if v.Sign() == 0 {
+		return Repr{}, false
+	}
+
+	var l *big.Int
+
+	sq := func(a *big.Int) (*big.Int, bool) { return oracle.FSqrt(a) }
+	div := func(a, b *big.Int) *big.Int { return oracle.FMul(a, oracle.FInv0(b)) }
+
+	var ok bool
+
+	switch which {
+	case "X":
+		l, ok = div(v, p.X), p.X.Sign() != 0
+	case "Y":
+		l, ok = div(v, p.Y), true
+	case "Z":
+		l, ok = v, true
+	case "Y2": // (λy)^2 = v
+		var r *big.Int
+		if r, ok = sq(v); ok {
+			l = div(r, p.Y)
+		}
+	case "Z2":
+		l, ok = sq(v)
+	case "YZ": // λ^2 y = v
+		l, ok = sq(div(v, p.Y))
+	case "XY": // λ^2 x y = v
+		if p.X.Sign() != 0 {
+			l, ok = sq(div(v, oracle.FMul(p.X, p.Y)))
+		}
+	case "X+Y":
+		if s := oracle.FAdd(p.X, p.Y); s.Sign() != 0 {
+			l, ok = div(v, s), true
+		}
+	case "Y+Z":
+		if s := oracle.FAdd(p.Y, big.NewInt(1)); s.Sign() != 0 {
+			l, ok = div(v, s), true
+		}
+	case "X+Z":
+		if s := oracle.FAdd(p.X, big.NewInt(1)); s.Sign() != 0 {
+			l, ok = div(v, s), true
+		}
+	}
+
+	if !ok || l == nil || l.Sign() == 0 {
+		return Repr{}, false
+	}
+
+	return Repr{Kind: "scaled", L: l}, true
+}
+
+// ReprPairHitting returns a representation of q such that, with p scaled by l1, the named cross product has stored
+// value t.
+func ReprPairHitting(p, q oracle.Pt, l1 *big.Int, which string, t *big.Int) (Repr, bool) {
+	if p.IsInf() || q.IsInf() {
+		return Repr{}, false
+	}
+
+	v := oracle.FromMont(oracle.Limbs(t), oracle.P)
+
+	var den *big.Int
+
+	switch which {
+	case "X1X2":
+		den = oracle.FMul(l1, oracle.FMul(p.X, q.X))
+	case "Y1Y2":
+		den = oracle.FMul(l1, oracle.FMul(p.Y, q.Y))
+	case "Z1Z2":
+		den = oracle.Mod(l1, oracle.P)
+	}
+
+	if den == nil || den.Sign() == 0 || v.Sign() == 0 {
+		return Repr{}, false
+	}
+
+	return Repr{Kind: "scaled", L: oracle.FMul(v, oracle.FInv0(den))}, true
+}
